@@ -48,7 +48,7 @@ def check(ctx):
     K.precedes(ctx, "R1", "verde.utils.make_xarray_grid", K.is_call("verde.base.utils.check_extra_coords_names"),
                lambda e: e.kind == "store" and e.data[3] == "container" and e.data[1][0] == "elem", "extra-names-validated-before-use", "extra coordinate names are validated before they are used")
     # ---- R2 grid_to_table
-    K.roles_rule(ctx, "R2", [GT], with_return=False)
+    K.roles_rule(ctx, "R2", [GT], with_return=False, require={GT: [{"meshgrid-operands"}, {"zip-name-array", "dict-entry"}]})
     n = 0
     for p in ctx.paths(GT):
         if p.exit != "return":
